@@ -12,6 +12,7 @@ import (
 	"math"
 	"strconv"
 	"strings"
+	"sync"
 
 	"github.com/fabiolb/fabio/logger"
 	"github.com/fabiolb/fabio/proxy"
@@ -67,8 +68,14 @@ func stdPadInt(i int64, pad int) string {
 	return sign + d
 }
 
-func genInt64(r *hx.Rand) int64 {
-	switch r.Intn(6) {
+// genInt64: small values, powers of ten / two and their neighbours (finite universes: drawn mostly among
+// the first 20000 cases of a run, afterwards they would only repeat), and wide random values.
+func genInt64(r *hx.Rand, i int) int64 {
+	k := r.Intn(6)
+	if i >= 20000 && !r.Chance(1, 20) {
+		k = []int{2, 3, 5}[r.Intn(3)]
+	}
+	switch k {
 	case 0:
 		return int64(r.Intn(2000)) - 1000
 	case 1: // powers of ten and neighbours
@@ -116,7 +123,7 @@ func init() {
 			if r.Chance(1, 200) {
 				p = 120 + r.Intn(15) // around the size of the scratch array
 			}
-			return c20AtoiIn{genInt64(r), p}
+			return c20AtoiIn{genInt64(r, i), p}
 		},
 		Run: func(raw json.RawMessage) (interface{}, error) {
 			var in c20AtoiIn
@@ -141,7 +148,7 @@ func init() {
 			c20IntIn{math.MinInt32 + 1}, c20IntIn{999999999}, c20IntIn{1000000000}, c20IntIn{-1000000000},
 		},
 		Gen: func(r *hx.Rand, i int) interface{} {
-			return c20IntIn{int64(int32(genInt64(r)))}
+			return c20IntIn{int64(int32(genInt64(r, i)))}
 		},
 		Run: func(raw json.RawMessage) (interface{}, error) {
 			var in c20IntIn
@@ -191,6 +198,70 @@ func init() {
 				sum = (sum ^ '\n') * fnvPrime
 			}
 			return map[string]interface{}{"bad": bad, "first_bad": first, "sum": strconv.FormatUint(sum, 16)}, nil
+		},
+	})
+
+	// Exhaustive sweep of int32 against strconv.Itoa on the Go side: part k of 256 covers the 2^24 values from
+	// MinInt32 + k*2^24; the i-th generated case is part i mod 256. The Lean side sees the mismatch count and
+	// three probe values (first, middle, last) that it compares with the model and with Nat.repr.
+	hx.Register(&hx.Stream{
+		Name:   "c20.i32sweep",
+		Corpus: []interface{}{c20BlockIn{0}, c20BlockIn{127}, c20BlockIn{128}, c20BlockIn{255}},
+		Gen: func(r *hx.Rand, i int) interface{} {
+			return c20BlockIn{int((uint64(i) * 101) % 256)}
+		},
+		Run: func(raw json.RawMessage) (interface{}, error) {
+			var in c20BlockIn
+			if err := json.Unmarshal(raw, &in); err != nil {
+				return nil, err
+			}
+			if in.Blk < 0 || in.Blk > 255 {
+				return nil, fmt.Errorf("no such part")
+			}
+			lo := int64(math.MinInt32) + int64(in.Blk)<<24
+			const workers = 8
+			const per = (1 << 24) / workers
+			bad := make([]int, workers)
+			first := make([]string, workers)
+			panics := make([]string, workers)
+			var wg sync.WaitGroup
+			for w := 0; w < workers; w++ {
+				wg.Add(1)
+				go func(w int) {
+					defer wg.Done()
+					defer func() {
+						if p := recover(); p != nil {
+							panics[w] = fmt.Sprint(p)
+						}
+					}()
+					var buf [12]byte
+					for v := lo + int64(w)*per; v < lo+int64(w+1)*per; v++ {
+						s := proxy.VerifI32toa(int32(v))
+						if s != string(strconv.AppendInt(buf[:0], v, 10)) {
+							bad[w]++
+							if first[w] == "" {
+								first[w] = strconv.FormatInt(v, 10) + " -> " + s
+							}
+						}
+					}
+				}(w)
+			}
+			wg.Wait()
+			total, fb := 0, ""
+			for w := 0; w < workers; w++ {
+				if panics[w] != "" {
+					panic(panics[w])
+				}
+				total += bad[w]
+				if fb == "" {
+					fb = first[w]
+				}
+			}
+			probes := map[string]string{}
+			for _, v := range []int64{lo, lo + 1<<23, lo + 1<<24 - 1} {
+				probes[strconv.FormatInt(v, 10)] = proxy.VerifI32toa(int32(v))
+			}
+			return map[string]interface{}{"bad": total, "first_bad": fb, "n": 1 << 24, "probes": probes}, nil
 		},
 	})
 
